@@ -285,6 +285,10 @@ pub fn run(args: Args) -> ! {
     finish_run(&mut rep, "interleaved", run);
     let run = run_tape("C03.f11probe", &prop_f11probe, 3000, cases / 4, args.seed, workers());
     finish_run(&mut rep, "f11probe", run);
+    if args.tier == Tier::Thorough && rep.violations.is_empty() {
+        let seeds: Vec<Vec<u8>> = fx.iter().filter(|f| f.valid && f.bytes.len() <= 4096).map(|f| f.bytes.clone()).collect();
+        fuzz_campaign(&mut rep, "fuzz_c03", &seeds, 4_000_000, 4096, workers());
+    }
     for c in ["comment-line", "eol-comment", "comment-in-array", "trailing-comment", "ws-in-header", "ws-after-dot", "ws-before-dot", "indent", "trailing-comma", "decor-in-empty-array", "decor-in-empty-inline", "sub-before-super", "interleaved-aot", "crlf", "crlf-in-ml-string", "bom", "no-final-newline", "multiline-array"] {
         rep.require_class(c);
     }
